@@ -48,17 +48,21 @@ def structures():
         "oscill": np.array([[-2 * z, -1.0], [1.0, 0.0]]),
         "dense3": np.array([[1.0, 2.0, 3.0], [4.0, 5.0, 6.0], [7.0, 8.0, 9.0]]) / 10.0,
         "so4": np.array([[-0.4, 0.1, -3.0, 1.0], [0.1, -0.6, 1.0, -5.0], [1.0, 0, 0, 0], [0, 1.0, 0, 0]]),
+        # strongly non-normal / sign-indefinite: |A|^k grows much faster than A^k (exercises the extra-scaling estimate)
+        "nonnormal": np.array([[1.0, 1.000244140625], [-1.0, -1.0]]),
+        "indef4": np.array([[0.9, -1.3, 0.4, 1.1], [1.2, -0.7, -1.5, 0.3], [-0.6, 1.4, -0.8, -1.0], [-1.1, -0.2, 1.3, -0.6]]),
+        "rot_growth": np.array([[0.0, 30.0, 0.0], [-30.0, 0.0, 1.0], [0.0, 0.0, -0.5]]) / 30.0,
     }
 
 
-GROWING = {"dense3"}  # positive real eigenvalue: cap the norm
-SINGULAR = {"zero", "nilpotent", "singsym", "skew3"}
+GROWING = {"dense3", "indef4"}  # positive real eigenvalue: cap the norm
+SINGULAR = {"zero", "nilpotent", "singsym", "skew3", "nonnormal"}  # (nonnormal: eigenvalues +-0.0156i, cond ~ 8e3: nearly singular)
 
 
 def norms(tier):
-    full = [1e-6, 1e-3, 0.0149, 0.0151, 0.1, 0.25, 0.26, 0.94, 0.96, 1.5, 2.09, 2.11, 4.2, 4.3, 50.0, 1e3]
+    full = [1e-6, 1e-3, 0.0149, 0.0151, 0.1, 0.25, 0.26, 0.94, 0.96, 1.5, 2.09, 2.11, 4.2, 4.3, 12.8, 50.0, 200.0, 1e3]
     if tier == "quick":
-        return [1e-6, 0.0149, 0.0151, 0.26, 0.96, 2.09, 2.11, 4.3, 50.0]
+        return [1e-6, 0.0149, 0.0151, 0.26, 0.96, 2.09, 2.11, 4.3, 12.8, 50.0]
     return full
 
 
